@@ -14,14 +14,21 @@ type WalkProperty struct {
 type WalkCallback func(schema WalkProperty) error
 
 func WalkSchemaFields(root RootSchema, asClient bool, callback WalkCallback) error {
-	err := walkSchemaFields(root, asClient, callback, nil)
+	err := walkSchemaFields(root, asClient, callback, nil, map[RootSchema]struct{}{})
 	if err != nil {
 		return err
 	}
 	return nil
 }
 
-func walkSchemaFields(root RootSchema, asClient bool, callback WalkCallback, path []string) error {
+// walking holds the schemas on the current path: a schema that refers back to
+// one of them (directly or through others) is not descended into again.
+func walkSchemaFields(root RootSchema, asClient bool, callback WalkCallback, path []string, walking map[RootSchema]struct{}) error {
+	if _, ok := walking[root]; ok {
+		return nil
+	}
+	walking[root] = struct{}{}
+	defer delete(walking, root)
 
 	var properties PropertySet
 	switch rt := root.(type) {
@@ -50,11 +57,11 @@ func walkSchemaFields(root RootSchema, asClient bool, callback WalkCallback, pat
 
 		switch st := prop.Schema.(type) {
 		case *ObjectField:
-			if err := walkSchemaFields(st.Ref.To, asClient, callback, propPath); err != nil {
+			if err := walkSchemaFields(st.Ref.To, asClient, callback, propPath, walking); err != nil {
 				return err // not wrapped, the path is already in the error above
 			}
 		case *OneofField:
-			if err := walkSchemaFields(st.Ref.To, asClient, callback, propPath); err != nil {
+			if err := walkSchemaFields(st.Ref.To, asClient, callback, propPath, walking); err != nil {
 				return err // not wrapped, the path is already in the error above
 			}
 		}
